@@ -25,7 +25,11 @@ ConcurrentVectorIterator<VecT, T, kIsConst>::operator++() {
     ++vb_;
     auto vb = getVecAndBucket();
     len <<= int{vb.bucket > 1};
-    bucketPtr_ = bucketStart_ = vb.vec->cachedBuffer(vb.bucket);
+    // Read the next bucket's pointer from the atomic table, as the constructor does: stepping off
+    // the last element of a bucket only forms a one-past position, and with look-ahead allocation
+    // strategies the next bucket may be published concurrently by another thread, which writes the
+    // plain cachedPtrs_ entry that cachedBuffer() reads.
+    bucketPtr_ = bucketStart_ = vb.vec->buffers_[vb.bucket].load(std::memory_order_relaxed);
     bucketEnd_ = bucketPtr_ + len;
   }
   return *this;
